@@ -20,12 +20,17 @@ fn kf_class(text: &str, o: &Opt) -> Option<&'static str> {
     if text.split(o.ending()).all(|p| seq_safe(hy, p)) {
         return None;
     }
-    let all = format!("{}{}{}", text, o.ii, o.si);
-    if o.sep == 'a' && kf1a(&all) {
+    // the classes are properties of a paragraph (every paragraph is scanned from skipper state
+    // `normal`), not of the whole text: a sequence left open by one paragraph does not continue
+    // into the next
+    let mut parts: Vec<&str> = text.split(o.ending()).collect();
+    parts.push(&o.ii);
+    parts.push(&o.si);
+    if o.sep == 'a' && parts.iter().any(|p| kf1a(p)) {
         Some("KF-1a")
-    } else if o.splitter == "h" && kf1b(&all) {
+    } else if o.splitter == "h" && parts.iter().any(|p| kf1b(p)) {
         Some("KF-1b")
-    } else if kf2(&all) {
+    } else if parts.iter().any(|p| kf2(p)) {
         Some("KF-2")
     } else {
         None
